@@ -181,7 +181,12 @@ def run_one(scen: dict, keep: bool = False) -> dict:
 
 def run_many(scens: list, jobs: int = 10) -> list:
     with ThreadPoolExecutor(max_workers=jobs) as pool:
-        return list(pool.map(run_one, scens))
+        outs = list(pool.map(run_one, scens))
+    # a runner that produced no trace at all (killed, out of time on a loaded machine) is run once more, alone
+    for k, o in enumerate(outs):
+        if "events" not in o:
+            outs[k] = run_one(scens[k])
+    return outs
 
 
 # --------------------------------------------------------------------------------------------
